@@ -14,8 +14,10 @@ VERIF = Path(__file__).resolve().parent.parent
 REPO = Path(os.environ.get('VERIF_REPO', '/repo')).resolve()
 SPEC = VERIF / 'spec'
 CACHE = VERIF / '.cache'
-REPLAYS = VERIF / 'replays'
-EVIDENCE = VERIF / 'evidence'
+# a run against a tree other than /repo (seeded-change confirmation) must not overwrite the evidence of /repo
+_SIDE = VERIF / '.cache' / 'side' if REPO != Path('/repo') else VERIF
+REPLAYS = _SIDE / 'replays'
+EVIDENCE = _SIDE / 'evidence'
 GUARD = 'GEOPHIRES_X_VERIF'
 
 
@@ -193,7 +195,7 @@ class Result:
         self.violations.append((key, what, replay))
 
     def finish(self, extra_cov: dict | None = None) -> int:
-        EVIDENCE.mkdir(exist_ok=True)
+        EVIDENCE.mkdir(parents=True, exist_ok=True)
         wall = time.time() - self.t0
         cov = {
             'states': self.states,
